@@ -1,7 +1,8 @@
 (* Enc2Examples: model-level witnesses (vm_compute on dumps only) for Proofs/Enc2Samples.v:
    the class D30 on a decoded map, and non-vacuity of the image theorems. *)
 From RM Require Import Model.EncPathSpec Model.EncObjCarry Model.EncTimingSpec Proofs.EncRound Proofs.EncImage Proofs.EncMapImage
-     Proofs.Enc2Samples Proofs.EncObjectsRT Proofs.EncTimingExample Proofs.Enc2Timing.
+     Proofs.Enc2Samples Proofs.EncObjectsRT Proofs.EncTimingExample Proofs.Enc2Timing Proofs.Enc2Slider Model.DrvEnc.
+From RM Require Model.Curve.
 From RM Require Import Gen.Generated.
 Open Scope Z_scope.
 
@@ -89,4 +90,42 @@ Lemma rt_classes_example :
 Proof. vm_compute. repeat split; reflexivity. Qed.
 
 Lemma t02d_lines_no_lf : forallb (fun l => negb (memb ch_lf l)) (lines_of_text t02d_text) = true.
+Proof. vm_compute. reflexivity. Qed.
+
+(* non-vacuity of Enc2Slider.slider_round_trip: three decoded sliders (explicit length equal to
+   the natural length; no length field, so the natural length is written; explicit length shorter
+   than the curve) satisfy its hypotheses with the real curve model.  libm is not reached by these
+   inputs (no three-point perfect curve). *)
+Definition lm0 : Curve.Libm := Curve.mkLibm (fun x => x) (fun x => x) (fun y _ => y) (fun x => x).
+
+Definition sliders_text : str :=
+  join_lines ["osu file format v14"; "[HitObjects]";
+              "100,100,1000,2,0,L|200:100,1,100";
+              "100,100,2000,2,0,L|200:200,2";
+              "100,100,3000,2,0,L|300:100,1,150"]%string.
+
+Definition slider_facts (h : HitObject) : list Z :=
+  match h_kind h with
+  | KSlider s =>
+      match slider_curve lm0 s with
+      | Done c =>
+          [if slider_ok h s (written_of (sl_expected_dist s) c) then 1 else 0;
+           match sl_expected_dist s with Some d => D.bits d | None => -1 end;
+           D.bits (written_of (sl_expected_dist s) c);
+           match reread_len (written_of (sl_expected_dist s) c) with Some d => D.bits d | None => -1 end;
+           Z.of_nat (length (Curve.c_path c)); sl_mode s]
+      | _ => [-2]
+      end
+  | _ => [-3]
+  end.
+
+Lemma sliders_example :
+  match decode_beatmap (dist_real lm0) (lines_of_text sliders_text) with
+  | Done m =>
+      map slider_facts (hov_hit_objects (bmv_ho m)) =
+      [[1; D.bits (D.of_Z 100); D.bits (D.of_Z 100); D.bits (D.of_Z 100); 2; 0];
+       [1; -1; 4639179838182129664; 4639179838182129664; 2; 0];
+       [1; D.bits (D.of_Z 150); D.bits (D.of_Z 150); D.bits (D.of_Z 150); 2; 0]]
+  | _ => False
+  end.
 Proof. vm_compute. reflexivity. Qed.
